@@ -351,6 +351,8 @@ class RealBackend(object):
         self.hash_vals = pr.get("hashes", {})
         self.nhash = 0
         self.dd_tasks = []
+        self.sched_flush_count = {}
+        self.sched_flush_keep = []
         self.dd_runs = 0
         self.carried = None
         self.probe_rate = spec.get("probe_rate", 0)
@@ -804,7 +806,10 @@ class RealBackend(object):
             if isinstance(leaf, A.AsyncTask):
                 ci = _inst_of(leaf)
                 if ci is not None:
-                    if plain and not ci.started and not leaf.is_computed() and not any(ci is x for x in grp):
+                    # only tasks created by this very yield expression: nobody else can hold (and
+                    # await) them yet, so they are "first scheduled by being yielded together"
+                    if plain and not ci.started and not leaf.is_computed() and ci.parent is inst \
+                            and _ordinal(ci.token) >= inst.yield_n0 and not any(ci is x for x in grp):
                         grp.append(ci)
         if len(grp) > 1:
             self.order_groups.append(grp)
@@ -1014,8 +1019,15 @@ class RealBackend(object):
                 self.viol("C05", "flush-pending", "scheduler flushes batch %s which is already flushed/cancelled" % bid)
             if not batch.items:
                 self.viol("C05", "flush-nonempty", "scheduler flushes empty batch %s" % bid)
-            if getattr(batch, "nflush_body", 0) > 0:
-                self.viol("C05", "flush-once", "batch %s flushed again" % bid)
+            nsf = self.sched_flush_count.get(id(batch), 0)
+            self.sched_flush_count[id(batch)] = nsf + 1
+            self.sched_flush_keep.append(batch)
+            if nsf > 0:
+                self.viol("C05", "flush-once", "the scheduler flushes batch %s a second time" % bid)
+            elif getattr(batch, "nflush_body", 0) > 0:
+                # its body is already running: the batch is being flushed directly (item.value())
+                # and that flush body re-entered asynq - not a second *scheduler* flush
+                self.probes["sched_flush_of_batch_mid_direct_flush"] += 1
             self._check_prio(batch)
             ext = self.extents[-1] if self.extents else None
             r = ext[0] if ext else self.root
@@ -1341,6 +1353,13 @@ class RealBackend(object):
         if self.active_stack:
             self.viol("C06", "left-active", "contexts still active %s: %s" % (when, [c.cid for c in self.active_stack]))
             self.active_stack = []
+
+
+def _ordinal(token):
+    try:
+        return int(token.rsplit(".", 1)[1])
+    except (ValueError, IndexError):
+        return -1
 
 
 def _alternates(s):
